@@ -135,7 +135,7 @@ pub fn run(rep: &Report) {
     let quick = rep.quick();
     let all_strats = |u: &Value| pipeline::all_strategies(u);
     let c8 = |_: usize| cfgs8();
-    let (n, d) = if quick { (4, 3) } else { (5, 4) };
+    let (n, d) = if quick { (4, 3) } else { (6, 4) };
     run_structures(rep, &format!("S({n},{d}) x all strategies (2^n path subsets, 3 notations) x decoys x fmt x holder key"), &trees(n, d), &all_strats, &c8, checks, false);
     // all algorithms on a smaller scope
     let all36 = |_: usize| Cfg::all();
